@@ -32,6 +32,8 @@ def handle (args : List String) : String :=
     | some str, some env =>
       if op = "expand" then showBytesRes (shellExpand str env)
       else if op = "fields" then showFieldsRes (shellFields str env)
+      else if op = "specexpand" then showBytesRes (hdocSem str env)
+      else if op = "specfields" then showFieldsRes (argsSem str env)
       else "bad-op"
     | _, _ => "bad-op"
   | _ => "bad-op"
